@@ -10,7 +10,7 @@ import io
 import rx
 from rx.subject import Subject
 
-from .core import Ctx, canon
+from .core import Ctx, canon, WORK, WORK_CAP, BudgetExceeded
 
 
 def gen_cuts(rng, n, hot=()):
@@ -155,6 +155,9 @@ class SimFile(object):
         if self.closed:
             raise ValueError('I/O operation on closed file')
         self.disk.reads += 1
+        WORK[0] += 8
+        if WORK[0] > WORK_CAP * 4:
+            raise BudgetExceeded()
         rest = len(self.data) - self.pos
         if size is None or size < 0:
             n = rest
